@@ -4,3 +4,5 @@ import Heathcliff.Props.C03
 #print axioms HC.C03.rescale_error
 #print axioms HC.C03.drop_phase
 #print axioms HC.C03.scale_append
+#print axioms HC.C03.gen_is_scale_within_bounds_eq
+#print axioms HC.C03.gen_is_scale_within_bounds_ckks
